@@ -18,6 +18,7 @@ from __future__ import annotations
 import json
 import re
 import time
+import warnings
 
 import common
 from common import Channel
@@ -75,6 +76,8 @@ TRACKS = [1, 2, 3, 4, 5, 9]
 
 
 def _w():
+    # the application under test warns about its own short JWT test secret and about autoflush
+    warnings.filterwarnings("ignore")
     import c17_world
     return c17_world.world()
 
@@ -434,8 +437,8 @@ def channels(ctx):
         return
     rng = ctx.rng("store_hist")
     t0 = time.time()
-    budget = 55 if not ctx.thorough else 600
-    n_hist = ctx.scale(40, 400)
+    budget = 45 if not ctx.thorough else 660
+    n_hist = ctx.scale(260, 1200)
     max_len = 12 if not ctx.thorough else 60
     hs = []
     for ops in corpus_histories():
